@@ -273,6 +273,21 @@ func raceSupplementRun(work string) map[string]interface{} {
 	return res
 }
 
+// libraryCrash: the output of a dead harness process shows a Go panic / fatal error whose stack has a frame of the
+// library; returns that frame (function name), or "".
+func libraryCrash(out string) string {
+	if !strings.Contains(out, "\npanic:") && !strings.HasPrefix(out, "panic:") && !strings.Contains(out, "fatal error:") {
+		return ""
+	}
+	for _, l := range strings.Split(out, "\n") {
+		l = strings.TrimSpace(l)
+		if strings.HasPrefix(l, "github.com/varlink/go/") {
+			return strings.SplitN(l, "(", 2)[0]
+		}
+	}
+	return ""
+}
+
 // buildGenerator builds the tree's interface generator (with the request-server file added by the overlay)
 // and lists the compiler export data of package varlink and its dependencies, for the checks that
 // type-check and build generated code (C07, C08). Returns the environment entries the harness needs.
@@ -345,6 +360,8 @@ func check(id, tier string) int {
 	}
 	results := make([]*shardResult, len(jobs))
 	errs := make([]string, len(jobs))
+	crashes := make([]string, len(jobs))
+	crashOut := make([]string, len(jobs))
 	var wg sync.WaitGroup
 	for i := range jobs {
 		wg.Add(1)
@@ -360,6 +377,13 @@ func check(id, tier string) int {
 			out, err := cmd.CombinedOutput()
 			if err != nil {
 				errs[i] = fmt.Sprintf("shard %d: %v\n%s", i, err, tail(string(out), 4000))
+				if crash := libraryCrash(string(out)); crash != "" {
+					// the harness process died in a goroutine of the code under test (a panic the harness cannot
+					// recover): that is a verdict about the library, not an infrastructure failure
+					crashes[i] = crash
+					crashOut[i] = tail(string(out), 6000)
+					errs[i] = ""
+				}
 			}
 			b, rerr := os.ReadFile(outf)
 			if rerr != nil {
@@ -388,7 +412,21 @@ func check(id, tier string) int {
 	}
 	// merge
 	tot := shardResult{Outcomes: map[string]int{}, Races: map[string]string{}, Extra: map[string]int{}}
+	for i, c := range crashes {
+		if c == "" {
+			continue
+		}
+		os.MkdirAll(filepath.Join(verif, "replays"), 0o755)
+		path := filepath.Join(verif, "replays", fmt.Sprintf("%s-crash-%d.json", id, i))
+		b, _ := json.MarshalIndent(map[string]interface{}{"property": id, "key": "symptom=process-crash " + c, "msg": "a harness process died with a panic in a goroutine of the code under test", "input": map[string]string{"stderr": crashOut[i]}}, "", " ")
+		os.WriteFile(path, b, 0o644)
+		tot.Violations = append(tot.Violations, violation{Scenario: "process crash (see the replay file for the stack)", Msg: "a harness process died with a panic or fatal error in a goroutine of the code under test: " + c, Key: "symptom=process-crash " + c, Replay: path})
+		tot.Capped = true
+	}
 	for _, r := range results {
+		if r == nil {
+			continue
+		}
 		if r.Infra != "" {
 			infra("%s", r.Infra)
 		}
